@@ -236,6 +236,33 @@ def check_node(tally, cfg, kind, dt0, tau, amp, duration, inplace, seq, inclusiv
                 if not (same(float(tv[0]), float(res[ta][0])) and same(float(tv[1]), float(res[tb][1]))):
                     tally.violation(f"view:tensor!=scalar:{kind}", {**case, "time": [ta, tb]}, f"{tv.tolist()} vs scalar views {[float(res[ta][0]), float(res[tb][1])]}")
                     ok = False
+    # ---- differential: after a clear every observable - including the slots older than the first observation since the
+    # clear - equals that of a fresh reducer fed the suffix
+    clears = [i for i, o in enumerate(seq) if o[0] == "clear"]
+    if ok and clears:
+        last = clears[-1]
+        suffix = tuple(o for o in seq[:last] if o[0] == "dt") + tuple(seq[last + 1:])
+        try:
+            fr, _, _ = run_sequence(kind, dt0, tau, amp, duration, inplace, suffix, inclusive)
+            d1, d2 = r.dump(), fr.dump()
+            same_dump = (d1 is None and d2 is None) or (d1 is not None and d2 is not None and d1.shape == d2.shape and torch.allclose(d1, d2, equal_nan=True))
+            if not same_dump:
+                tally.violation(f"clear-not-fresh:dump:{kind}:keepshape={seq[last][1]}", case, f"after clear(keepshape={seq[last][1]}) and the same suffix, dump() = "
+                                f"{None if d1 is None else d1.tolist()} but a fresh reducer gives {None if d2 is None else d2.tolist()}")
+                ok = False
+            elif N > 1:
+                for q in range(0, 4 * (N - 1) + 1):
+                    t = q * dt / 4
+                    tally.add("views")
+                    v1, v2 = r.view(t), fr.view(t)
+                    if not ((v1 is None and v2 is None) or torch.allclose(v1, v2, equal_nan=True)):
+                        tally.violation(f"clear-not-fresh:view:{kind}:keepshape={seq[last][1]}", {**case, "time": t}, f"after clear, view({t}) = {v1.tolist()} but a fresh "
+                                        f"reducer fed the same suffix gives {v2.tolist()}")
+                        ok = False
+                        break
+        except Exception as ex:
+            tally.violation(f"exception:clear-differential:{kind}:{type(ex).__name__}", case, repr(ex))
+            ok = False
     return ok
 
 
